@@ -38,7 +38,7 @@ for r in rows:
             if os.path.exists(cf):
                 for mm in re.finditer(r'props ([A-Z0-9 ]+)', open(cf).read()):
                     rel.update(mm.group(1).split())
-                for mm in re.finditer(r'\[((?:C\d\d ?)+)\]', open(cf).read()):
+                for mm in re.finditer(r'\[((?:(?:C\d\d|ONLY) ?)+)\]', open(cf).read()):
                     rel.update(mm.group(1).split())
         if os.environ.get('SEEDRUN_ALL'): rel=set(claimed)
         own=m0.get('property','')
